@@ -139,15 +139,15 @@ CHECKS = {
    technique="Coq proof (round trip for every map-iteration permutation, observational equality) + per-run differential on real gob round trips",
    design="5 C13"),
  "C03": dict(
-   text="Theorems (Properties/C03.v, 15, all closed) on the dataset->entries->tree pipeline: C03_graph_order (for every dataset with unique graph names and EVERY permutation of the Go map ds.Graphs, "
+   text="Theorems (Properties/C03.v, 19, all closed) on the dataset->entries->tree pipeline: C03_graph_order (for every dataset with unique graph names and EVERY permutation of the Go map ds.Graphs, "
         "entries_from_rdf is equal on success and an error on both sides otherwise; _precise: literally the same outcome unless both stop in assertDatasetConsistency, where only which inconsistency is "
         "reported may differ - _same_error_refuted gives the witness, replayed 300x on the real code), C03_sort_canonical, C03_insertion_order(_entries,_fail) (same tree for every reordering of "
         "AddEntriesToMerkleTree, via SMT.add_all_perm_root), C03_deterministic (whole pipeline invariant under every permutation of the only map the code ranges over), C03_empty_tree / C03_given_tree "
         "(caller-provided tree), C03_value_binding (two entry lists equal except for one value with different encodings have different roots OR an explicit Collision; via SMT.Sound.binding, C04 injectivity), "
-        "C03_spelling_dataset (respelling literals with equal conversions leaves entries unchanged when quads keep their place). PARTIAL: invariance under JSON re-presentation (key order, array permutation, "
+        "C03_spelling_dataset (respelling literals with equal conversions leaves entries unchanged when quads keep their place), C03_labels / C03_labels_root (an injective renaming of blank-node labels that is monotone on the graph names leaves entries and root literally unchanged; _needs_monotone / _needs_injective show both hypotheses are necessary). PARTIAL: invariance under JSON re-presentation (key order, array permutation, "
         "whitespace, number spellings, blank-node relabelling, inline vs remote context) is json-gold's and is checked metamorphically per run (~10k implementation evaluations: six transformations composed, "
         "50 repeats in one process and in parallel goroutines, provided trees, per-leaf replacement); entries and ROOT of the model are compared with the implementation on ~400 datasets under several graph orders.",
-   note="Known findings D21 (+2 variants): lexical respelling of a typed literal can renumber siblings (json-gold / URDNA2015 order effect). C03_labels (blank-label renaming at dataset level) is not proved.",
+   note="Known findings D21 (+2 variants): lexical respelling of a typed literal can renumber siblings (json-gold / URDNA2015 order effect).",
    technique="Coq proof (permutation invariance of the model, SMT insertion-order independence and binding) + metamorphic search on the implementation + per-run model/implementation differential",
    design="5 C03"),
  "C05": dict(
